@@ -145,6 +145,30 @@ def run(ctx):
         elif not np.allclose(im_a["rf"], im_b["rf"], rtol=1e-7, atol=1e-10) or (kind_ == "single" and not np.allclose(im_a["rfd"], im_b["rfd"], rtol=1e-7, atol=1e-10)):
             bad("recovery depends on whether a level came from the iterative solver or from the direct-solve fallback (a flagged iterate was kept)", inp,
                 dict(flux_final=[float(im_a["rf"][-1]), float(im_b["rf"][-1])], max_diff=float(np.abs(im_a["rf"] - im_b["rf"]).max())))
+    # ---------------- time grids held as integers (day counts) with a frac-face pressure that is not a whole number: the recoveries
+    # are those of the same grid held as floats, and the in-place recovery stays under its ceiling for THAT frac-face pressure
+    tbi = rescorr.synth_table("ideal", 300)
+    pti = np.asarray(tbi["pressure"], float)
+    rho_i = interp1d(pti, tbi["density"])
+    for nx, pi_, pf_ in ((20, float(pti[-2]), float(pti[-2]) - 0.5), (40, 150.25 if pti[0] < 100 else float(pti[3]) + 0.25, None), (12, float(pti[-5]), float(pti[-5]) * 0.5 + 0.37)):
+        if pf_ is None:
+            pf_ = max(float(pti[1]) + 0.7, pi_ * 0.1 + 0.7)
+        if not (pti[0] < pf_ < pi_ <= pti[-1]):
+            continue
+        days = np.arange(0, 60)
+        base_i = dict(kind="single", table=tbi, pi=pi_, pf=pf_, nx=nx, times=days.astype(float) * 0.05)
+        im_f = rescorr.run_impl(dict(base_i, times=days.astype(float)))
+        inp_i = dict(table="ideal-gas (consistent)", nx=nx, p_initial=pi_, p_frac=pf_, time_grid="np.arange(0, 60)")
+        for dt_name in ("int64", "int32"):
+            im_i = rescorr.run_impl(dict(base_i, times=days, time_dtype=dt_name))
+            ev += 1
+            if "rfd" not in im_i or "rfd" not in im_f:
+                bad("simulation fails on an integer-typed time grid", dict(**inp_i, dtype=dt_name), im_i.get("error"))
+                continue
+            ceil_i = 1 - float(rho_i(pf_)) / float(rho_i(pi_))
+            if not (np.allclose(im_i["rf"], im_f["rf"], rtol=1e-9, atol=1e-12) and np.allclose(im_i["rfd"], im_f["rfd"], rtol=1e-9, atol=1e-12)) or im_i["rfd"].max() > ceil_i * (1 + 1e-9) + 1e-12:
+                bad("recovery on an integer-typed time grid differs from the same grid held as floats (a frac-face pressure that is not a whole number is not honoured) / exceeds its ceiling",
+                    dict(**inp_i, dtype=dt_name), dict(inplace_final=[float(im_i["rfd"][-1]), float(im_f["rfd"][-1])], flux_final=[float(im_i["rf"][-1]), float(im_f["rf"][-1])], ceiling=ceil_i))
     # ---------------- ideal reservoir plateau: 1 - p_frac/p_initial
     for ratio in ((0.1, 0.9, 0.99875) if ctx.quick else (0.0125, 0.1, 0.5, 0.9, 0.99, 0.99875)):
         plat = []
